@@ -402,7 +402,7 @@ def run(program, rep, tier):
     # the queue before it is delivered (C04's release rule)
     from rules import c04
     rep.borrow(c04.check_release, program, rep,
-               keep=lambda o: o.rule == 'C04.release',
+               keep=lambda o: o.rule in ('C04.release', 'C04.drain'),
                rename=lambda r: 'C10.released',
                why='a delivered event stays in the queue and keeps the '
                'objects it carries alive during the following callbacks')
